@@ -660,6 +660,50 @@ pub(crate) fn step_move(layout: u8, forward: bool, minlen: usize, maxlen: usize)
     StepFacts { fresh: false, n, i, expect, qr: 0, loads }
 }
 
+/// C12: next / prev from every RI-strong state while the k-th seek/load of the source fails (k, kind symbolic).
+pub(crate) fn step_move_faults(layout: u8, forward: bool, max_io: u32) -> (bool, u32) {
+    reset_tables();
+    let l = build_layout(layout, 1, 1);
+    let n = l.n;
+    let i: usize = kani::any();
+    kani::assume(i < n);
+    let fail_at: u32 = kani::any();
+    kani::assume(fail_at >= 1 && fail_at <= max_io);
+    let kind: u8 = kani::any();
+    kani::assume(kind <= 3);
+    t().fail_at = fail_at;
+    t().fail_kind = kind;
+    let mut c = strong_state(&l, i, FileVersion::FormatV2);
+    let expect = if forward { if i + 1 < n { Some(i + 1) } else { None } } else if i > 0 { Some(i - 1) } else { None };
+    let res = if forward { c.move_on_next() } else { c.move_on_prev() };
+    match res {
+        Ok(r) => {
+            assert!(!t().faulted, "C12: the source failed during the move but the move reported success");
+            assert!(eidx_plain(r, n) == expect, "relative move did not return the adjacent entry");
+        }
+        Err(e) => {
+            assert!(t().faulted, "C12: an error was reported although no component failed");
+            match &e {
+                Error::Io(ioe) => {
+                    let k = match kind {
+                        0 => io::ErrorKind::Other,
+                        1 => io::ErrorKind::UnexpectedEof,
+                        2 => io::ErrorKind::PermissionDenied,
+                        _ => io::ErrorKind::BrokenPipe,
+                    };
+                    assert!(ioe.kind() == k, "C12: the I/O error does not carry the source's failure");
+                }
+                _ => panic!("C12: a source failure must surface as an I/O error"),
+            }
+            mem::forget(e);
+        }
+    }
+    let f = t().faulted;
+    let io = t().io_calls;
+    mem::forget(c);
+    (f, io)
+}
+
 /// current() from every RI-strong state.
 pub(crate) fn step_current(layout: u8, minlen: usize, maxlen: usize) -> StepFacts {
     reset_tables();
